@@ -16,16 +16,28 @@ def constDoneB (L : LogicData) (b : Branch) (i : Nat) (c : Nat × Nat) : Bool :=
       | none => false
   | _ => false
 
-structure BranchInvQ (L : LogicData) (b : Branch) (h : BranchH) : Prop where
+/-- is (k, i) a registered entry of the `NodeConsts` dictionaries -/
+def ncReg (ncs : List ((RuleKey × Nat) × List (Nat × Nat))) (k : RuleKey) (i : Nat) : Bool := ncs.any fun p => p.1 == (k, i)
+
+/-- the quantifier layer of the invariant for one branch: a statement about the nodes and the `NodeConsts` dictionaries only -/
+structure QInv (L : LogicData) (b : Branch) (ncs : List ((RuleKey × Nat) × List (Nat × Nat))) : Prop where
   /-- every node that passes the filter of an each-constant rule is registered in its `NodeConsts` -/
-  ncRegistered : ∀ k i nd, b.nodes[i]? = some nd → nodeKey nd = some k → isEachConst L k = true → h.ncRegistered k i = true
+  ncRegistered : ∀ k i nd, b.nodes[i]? = some nd → nodeKey nd = some k → isEachConst L k = true → ncReg ncs k i = true
+  /-- a registered entry belongs to a node of the branch with that key -/
+  ncKey : ∀ k i, ncReg ncs k i = true → ∃ nd, b.nodes[i]? = some nd ∧ nodeKey nd = some k
   /-- for a registered node, every constant of the branch is unapplied or has its instance on the branch -/
-  ncDone : ∀ k i, h.ncRegistered k i = true → ∀ c ∈ b.consts, c ∈ h.nc k i ∨ constDoneB L b i c = true
+  ncDone : ∀ k i, ncReg ncs k i = true → ∀ c ∈ b.consts, c ∈ aget [] ncs (k, i) ∨ constDoneB L b i c = true
   /-- the unapplied constants are constants of the branch -/
-  ncSub : ∀ k i c, c ∈ h.nc k i → c ∈ b.consts
-  /-- a ticked node of a new-constant rule has its instance for some constant of the branch (or the branch carries a quit
-      flag; or — vacuous quantification only — the branch has no constant at all) -/
-  tickedQ : ∀ i ∈ b.ticked, ∀ sn d w r whole l0, b.nodes[i]? = some (.sent sn d w) → L.ruleFor sn d = some (r, whole, l0) →
+  ncSub : ∀ k i c, c ∈ aget [] ncs (k, i) → c ∈ b.consts
+
+abbrev BranchInvQ (L : LogicData) (b : Branch) (h : BranchH) : Prop := QInv L b h.ncs
+
+/-- a ticked node of a new-constant rule has its instance for some constant of the branch (or the branch carries a quit
+    flag; or the branch has no constant at all).  A property of the BRANCH alone; it can only fail with vacuous quantification
+    (the instance does not mention the witness constant), which is why it is a hypothesis of the saturation theorem and not
+    part of the inductive invariant. -/
+def TickedQ (L : LogicData) (b : Branch) : Prop :=
+  ∀ i ∈ b.ticked, ∀ sn d w r whole l0, b.nodes[i]? = some (.sent sn d w) → L.ruleFor sn d = some (r, whole, l0) →
       r.witness = .newConst → b.hasQuit = true ∨ b.constList = [] ∨ ∃ c ∈ b.constList, constDoneB L b i c = true
 
 def InvQ (L : LogicData) (s : SState) : Prop :=
@@ -36,11 +48,17 @@ def InvQ (L : LogicData) (s : SState) : Prop :=
 def ckNcRegistered (L : LogicData) (b : Branch) (h : BranchH) : Bool :=
   b.nodes.zipIdx.all fun (nd, i) =>
     match nodeKey nd with
-    | some k => !isEachConst L k || h.ncRegistered k i
+    | some k => !isEachConst L k || ncReg h.ncs k i
     | none => true
 
 def ckNcDone (L : LogicData) (b : Branch) (h : BranchH) : Bool :=
   h.ncs.all fun p => b.consts.all fun c => (h.nc p.1.1 p.1.2).contains c || constDoneB L b p.1.2 c
+
+def ckNcKey (b : Branch) (h : BranchH) : Bool :=
+  h.ncs.all fun p =>
+    match b.nodes[p.1.2]? with
+    | some nd => nodeKey nd == some p.1.1
+    | none => false
 
 def ckNcSub (b : Branch) (h : BranchH) : Bool :=
   h.ncs.all fun p => (h.nc p.1.1 p.1.2).all b.consts.contains
@@ -55,7 +73,7 @@ def ckTickedQ (L : LogicData) (b : Branch) : Bool :=
     | _ => true
 
 def branchChecksQ (L : LogicData) (b : Branch) (h : BranchH) : List (String × Bool) :=
-  [("nc-registered", ckNcRegistered L b h), ("nc-done", ckNcDone L b h), ("nc-sub", ckNcSub b h), ("ticked-q", ckTickedQ L b)]
+  [("nc-registered", ckNcRegistered L b h), ("nc-key", ckNcKey b h), ("nc-done", ckNcDone L b h), ("nc-sub", ckNcSub b h), ("ticked-q", ckTickedQ L b)]
 
 def invBadQ (L : LogicData) (s : SState) : List String :=
   s.tab.zipIdx.flatMap fun (b, bi) =>
